@@ -71,10 +71,20 @@ func init() {
 			Technique: "explicit-state BFS over operation sequences executed on the implementation, reference-model oracle",
 			Rule:      "BFS states = canonical LSM shapes (per level: tables with their (key, version-rank, meta) lists and age class; memtable; watermark position); transitions = operations applied to the real DB"}
 		seeds := [][]string{seq("Sa F Sb F"), seq("Sa F Sa F"), seq("Sa F Sa F C0 Sb F Da F"), seq("Sa F Sb F Sa F Sb F A"), seq("Sa Sb F Sa Sb F C0 C0 Sa F Sb F C0")}
+		// L0->L0 shapes: a 32 KiB memtable, tables fattened by bulk transactions (U = 10 filler keys x
+		// 400 bytes); the base level is over its target (so L0's adjusted score is < 1 and compactor 0
+		// merges L0 into itself); the first merge leaves a "big" L0 table (>= 2 x MemTableSize) holding
+		// key a, which later L0->L0 merges exclude
+		l0l0 := prm("oracle", "c12", "keys", 1, "bulk", true, "mem_table_size", 32<<10, "value_threshold", 1024, "l0_tables", 2, "max_levels", 3, "ops", "Sa Da U F C0 C1 T A")
+		fat := "U U U U F "    // a 16 KiB L0 table of filler keys f0..f9
+		deep := "Ux Ux Ux Ux F " // the same with keys x0..x9 (disjoint from a and f*, so deeper levels do not overlap L0)
+		// last level 32 KiB, then 48 KiB into the level above it (score 3), then four aged L0 tables, the first holding a
+		l0a := deep + deep + "C0 " + deep + deep + deep + "C0 Sa " + fat + fat + fat + fat + "A C0"
+		l0seeds := [][]string{seq(l0a), seq(l0a + " Da " + fat + fat + fat + fat + "A T")}
 		if q {
-			p.Stages = []Stage{sched("c01flush", 2, 16, 20, prm("variant", "compact")), bfs("lsm", 4, 40, prm("oracle", "c12")), bfs("lsm", 5, 75, prm("oracle", "c12", "ops", "Sa Sb Da Db F C0 C1 T"), seeds[:3]...), bfs("lsm", 3, 30, prm("oracle", "c12"), seeds[3:]...)}
+			p.Stages = []Stage{sched("c01flush", 2, 16, 20, prm("variant", "compact")), bfs("lsm", 4, 40, prm("oracle", "c12")), bfs("lsm", 5, 75, prm("oracle", "c12", "ops", "Sa Sb Da Db F C0 C1 T"), seeds[:3]...), bfs("lsm", 3, 30, prm("oracle", "c12"), seeds[3:]...), bfs("lsm", 2, 40, l0l0, l0seeds...)}
 		} else {
-			p.Stages = []Stage{sched("c01flush", 3, 16, 300, prm("variant", "compact")), sched("c01flush", 2, 16, 300, prm("variant", "compact", "inmemory", false)), bfs("lsm", 6, 600, prm("oracle", "c12")), bfs("lsm", 7, 900, prm("oracle", "c12"), seeds...), bfs("lsm", 5, 600, prm("oracle", "c12", "keys", 3, "nvk", 2), seeds...)}
+			p.Stages = []Stage{sched("c01flush", 3, 16, 300, prm("variant", "compact")), sched("c01flush", 2, 16, 300, prm("variant", "compact", "inmemory", false)), bfs("lsm", 6, 600, prm("oracle", "c12")), bfs("lsm", 7, 900, prm("oracle", "c12"), seeds...), bfs("lsm", 5, 600, prm("oracle", "c12", "keys", 3, "nvk", 2), seeds...), bfs("lsm", 5, 900, l0l0, l0seeds...)}
 		}
 		return p
 	}
